@@ -5,6 +5,8 @@ import SecpZkp.Gen.K_ct32
 import SecpZkp.Gen.K_field10x26
 import SecpZkp.Gen.K_scalar4x64
 import SecpZkp.Gen.K_scalar8x32
+import SecpZkp.Gen.F_group
+import SecpZkp.Gen.K_int128struct
 /-
   `k_run <set>.<def> <in>* / <out>*` : executes a translated C function (MiniC IR regenerated from the
   sources by tools/c2lean_k.py) on concrete inputs.  The harness runs the real C function on the same
@@ -19,7 +21,8 @@ open MiniC
 def kTable : List (String × Fn) :=
   (Gen.field5x52.all.map fun p => ("field5x52." ++ p.1, p.2)) ++ (Gen.ct.all.map fun p => ("ct." ++ p.1, p.2)) ++
   (Gen.field10x26.all.map fun p => ("field10x26." ++ p.1, p.2)) ++ (Gen.ct32.all.map fun p => ("ct32." ++ p.1, p.2)) ++
-  (Gen.scalar4x64.all.map fun p => ("scalar4x64." ++ p.1, p.2)) ++ (Gen.scalar8x32.all.map fun p => ("scalar8x32." ++ p.1, p.2))
+  (Gen.scalar4x64.all.map fun p => ("scalar4x64." ++ p.1, p.2)) ++ (Gen.scalar8x32.all.map fun p => ("scalar8x32." ++ p.1, p.2)) ++
+  (Gen.int128struct.all.map fun p => ("int128struct." ++ p.1, p.2))
 
 def hexNat? (s : String) : Option Nat :=
   s.toList.foldlM (fun acc c => (Bytes.hexVal c).map (fun d => acc * 16 + d)) 0
@@ -58,7 +61,35 @@ def hKRun : Handler
     some (join shown)
   | _ => none
 
-def minicHandlers : List (String × Handler) := [("k_run", hKRun)]
+/-
+  `f_run group.<def> <in>* / <out>*` : executes a group-level function translated to FeIR (mode F) on field VALUES.
+    in  : `name=<64 hex>` (a field element, given normalized: magnitude 1) or `name=<short hex>` (an integer flag)
+    out : names; field variables print as 64 hex digits (canonical value), integers as hex; `MAG` if a documented
+          magnitude precondition is violated on the way
+-/
+def fTable : List (String × FeIR.Fn) := Gen.group.all.map fun p => ("group." ++ p.1, p.2)
+
+def hFRun : Handler
+  | fname :: rest => do
+    let fn ← (fTable.find? (·.1 == fname)).map (·.2)
+    let ins := rest.takeWhile (· ≠ "/")
+    let outs := (rest.dropWhile (· ≠ "/")).drop 1
+    let st0 ← ins.foldlM (fun (st : FeIR.State) tok =>
+      match tok.splitOn "=" with
+      | [name, v] => do
+        let n ← hexNat? v
+        if v.length = 64 then some { st with fe := st.fe.set name ⟨n, 1⟩ }
+        else some { st with ints := st.ints.set name 0 n }
+      | _ => none) ({ fe := [], ints := [] } : FeIR.State)
+    match FeIR.execL st0 fn.body with
+    | none => some "MAG"
+    | some st =>
+      let feNames := st.fe.map (·.1)
+      some (join (outs.map fun t =>
+        if feNames.contains t then hx (Bytes.be32 (FeIR.canon (st.fe.get t).val)) else showHex (st.ints.get t 0)))
+  | _ => none
+
+def minicHandlers : List (String × Handler) := [("k_run", hKRun), ("f_run", hFRun)]
 
 end Driver
 end SecpZkp
